@@ -146,7 +146,7 @@ class SliceWiring(Contract):
     to the assembler (so all outputs share the same two order vectors: C05 alignment)"""
 
     name = MOD + ":_Slice.<public properties>"
-    props = ("C05", "C01", "C02", "C03", "C11", "C12", "C15", "C16")
+    props = ("C05", "C01", "C02", "C03", "C04", "C10", "C11", "C12", "C14", "C15", "C16", "C17", "C20")
 
     def run(self, B, cfg):
         sent = {}
